@@ -200,12 +200,13 @@ def load_exclusions(modname, cond):
     return out
 
 
-def with_exclusions(h, regions):
+def with_exclusions(h, regions, extra_env=None):
     if not regions:
         return h
     sig = inspect.signature(h)
     codes = [compile(r, "<known-finding region>", "eval") for r in regions]
     genv = {"len": len, "ord": ord, "any": any, "all": all}
+    genv.update(extra_env or {})
 
     def hx(*a, **k):
         """
@@ -309,7 +310,7 @@ def main(argv):
         # 2. the condition itself
         regions = load_exclusions(modname, cond)
         res["excluded_regions"] = regions
-        main_r = analyze(with_exclusions(h, regions), timeout)
+        main_r = analyze(with_exclusions(h, regions, getattr(mod, "REGION_ENV", None)), timeout)
         res.update({k: main_r[k] for k in main_r if k != "cex"})
         if main_r["verdict"] == "refuted":
             if "cex" in main_r:
